@@ -40,7 +40,7 @@ CHECKS = {
 
 UM = dict(engine="um", category="exploration",
 	technique="deterministic simulation: the real fake_trx.Application (both threads, all transceivers) on a simulated UDP network and virtual clock, seeded L1 stub actors and network faults, lock-step refinement against a reference model of the virtual Um interface",
-	note="Trusts the simulator kernel, sim/refcodec.py and the reference model engines/um_model.py (DESIGN.md Appendix A); coarse schedules (commands and ticks atomic) unless stated; CPython 3.12.")
+	note="Trusts the simulator kernel, sim/refcodec.py and the reference model engines/um_model.py (DESIGN.md Appendix A); coarse schedules (commands and ticks atomic) in most runs, line-level schedules in the race profiles (DESIGN.md 9.2, 9.7); CPython 3.12.")
 for _pid, _ref, _txt in (
 	("C02", "§5/C02", "Routing oracle: per emitted burst the set of receiving sockets equals the running peers whose Rx frequency in that frame (fixed or hopping per TS 45.002 6.2.3, resolved independently) equals the sender's Tx frequency; never the sender, a powered-off or detuned transceiver."),
 	("C03", "§5/C03", "Exactly-once oracle: every accepted burst ends as emitted in its own tick, reported stale, cleared by power-off or still queued; coarse histories (any advance, duplicates, power cycles, version changes)."),
